@@ -49,6 +49,7 @@ func (u *Unit) borrowSetup(fr *Frame) {
 			continue
 		}
 		u.borrows = append(u.borrows, &borrowInfo{clause: i, param: cl.Desig, term: v.T})
+		u.assume("borrowed: callees that receive the borrowed value as a plain argument (cloners, codecs, isNil, reflection) do not retain it beyond their own return")
 	}
 }
 
